@@ -216,7 +216,8 @@ def get_key_flags():
         F = z3.Int('flag_of_selfsig')
         r2.hook(KEY, 'get_uid', scn.mconst(uid))
         r2.hook('pgpy.pgp.PGPUID', 'selfsig', scn.const(selfsig))
-        r2.hook('pgpy.pgp.PGPSignature', 'key_flags', scn.const(E.VSet([E.VInt(F, enum='pgpy.constants.KeyFlags')])))
+        F2 = z3.Int('flag_of_the_more_recent_selfsig_it_got_since')
+        r2.hook('pgpy.pgp.PGPSignature', 'key_flags', lambda ex, st, o, a: [(st, E.VSet([E.VInt(F2 if st.ghost.get('epoch') else F, enum='pgpy.constants.KeyFlags')]))])
         r2.hook('pgpy.pgp.PGPSignature', '__bool__', scn.mconst(E.VBool(True)))
         for pi, (s, v) in enumerate(r2.call(prim, [E.VStr(s='someone')])):
             paths += 1
@@ -230,6 +231,17 @@ def get_key_flags():
                 r2.oblige(s, 'certify-always-and-the-identity-self-signature-flags/p%d' % pi,
                           z3.And(z3.Or(*[x == KF['Certify'] for x in vals]), z3.Or(*[x == F for x in vals]),
                                  *[z3.Or(x == KF['Certify'], x == F) for x in vals]))
+            # no hidden state: asked again for the same identity after it got a more recent self-signature (attached to the identity, not to the key)
+            s.ghost['epoch'] = 1
+            for qi, (s3, v3) in enumerate(ex.call_func(E.VFunc(r2.node, None, cls=r2.dcls, self_val=prim, mod=r2.mod), [E.VStr(s='someone')], {}, s, {'mod': r2.mod})):
+                paths += 1
+                if isinstance(v3, E.Raise):
+                    r2.oblige(s3, 'second-call:safety/p%d.%d' % (pi, qi), z3.BoolVal(False), v3.where)
+                    continue
+                ok3 = isinstance(v3, E.VSet) and v3.conds is None
+                vals3 = [ex.as_int(x) for x in v3.items] if ok3 else []
+                r2.oblige(s3, 'second-call-after-a-more-recent-self-signature:certify-and-ITS-flags/p%d.%d' % (pi, qi),
+                          z3.And(z3.BoolVal(ok3), z3.Or(*[x == F2 for x in vals3]) if vals3 else z3.BoolVal(False), *[z3.Or(x == KF['Certify'], x == F2) for x in vals3]))
         res2 = r2.result()
         return {'obligations': obls + res2['obligations'], 'funcs': funcs + res2['funcs'], 'paths': paths}
     return Scenario(label, KEY + '._get_key_flags', gen, props=('C16', 'C15'))
